@@ -39,6 +39,7 @@
 #include <libgen.h>
 #endif
 #include <unistd.h>
+#include <errno.h>
 #include <argp.h>
 #include <zck.h>
 
@@ -337,6 +338,10 @@ int main (int argc, char *argv[]) {
          * an earlier block, nothing of this block is written yet */
         if(matched <= in_size - start)
             write_data(zck, data + start, in_size - (start + matched));
+    }
+    if(in_size < 0) {
+        LOG_ERROR("Error reading %s: %s\n", arguments.args[0], strerror(errno));
+        exit(1);
     }
     /* A partial match at the end of the input is ordinary data */
     if(split_size > 0 && matched > 0)
